@@ -17,7 +17,7 @@ LEVEL = "exploration"
 
 def make_experiments(d, seed):
     """Three read sets over one genome/annotation: A and B share expressed genes, C is smaller; A2 = copy of A."""
-    w = world2.rich_world(seed, n_chroms=3, genes_per_chrom=3, reads_per_t=6, hidden_cov=5, unmapped=0)
+    w = world2.rich_world(seed, n_chroms=3, genes_per_chrom=3, reads_per_t=6, hidden_cov=5, unmapped=0, zoo=world2.ZOO_ALL)
     os.makedirs(d, exist_ok=True)
     w.write_fasta(os.path.join(d, "g.fa"))
     w.write_gtf(os.path.join(d, "a.gtf"))
